@@ -26,7 +26,7 @@ def main():
     shutil.rmtree(evbak, ignore_errors=True)
     shutil.copytree("/verif/evidence", evbak)
     def cleanup():
-        sh("git checkout -- . && git clean -fdq")
+        sh("git reset -q --hard && git clean -fdq")
         if os.path.isdir(evbak):
             shutil.rmtree("/verif/evidence", ignore_errors=True)
             shutil.copytree(evbak, "/verif/evidence")
@@ -38,6 +38,11 @@ def main():
             for k in ("demo_passes_without_change", "suite_passes_with_change", "demo_fails_with_change", "demo_output_with_change"):
                 meta[k] = prev.get(k)
             rc, out = sh(f"git apply {patch}")
+            if rc != 0:
+                # the tree has moved since the change was written (repairs): merge it against the blobs it was made from
+                sh("git reset -q --hard")
+                rc, out = sh(f"git apply --3way {patch}")
+                meta["applied_by_3way_merge"] = rc == 0
             assert rc == 0, "patch does not apply: " + out
             rc, out = sh("go build ./...")
             assert rc == 0, "patched tree does not build: " + out[-600:]
